@@ -1,7 +1,8 @@
 import CprocVerif.Lemmas.InitEmit3
 import CprocVerif.Lemmas.InitDec
 import CprocVerif.Lemmas.InitParse2
-import CprocVerif.Lemmas.InitRefClass
+import CprocVerif.Lemmas.InitRefNoSw
+import CprocVerif.Lemmas.InitRefTopU
 
 /-!
 # C07 — initialised objects contain exactly the specified initial image
@@ -372,47 +373,105 @@ that this list is the one C11 6.7.9 prescribes: the image of `parseinit`'s event
 `initclear` read as a write of zeros) equals the image of the writes of the independent,
 recursive, type-directed reference `InitRef.ref` — for EVERY type of the member language
 (structs, unions, arrays, bit-fields, anonymous members, nesting of any depth) and EVERY
-initialiser tree of the class, of any length: fully braced or with braces elided at any level
-(6.7.9p20), fewer initialisers than members, string literals for character arrays (braced or not),
-struct/union values, empty braces.  The class is given by decidable predicates
-(`Spec/InitClass.lean`); `Drv/C07.lean` evaluates them for every generated object. -/
+initialiser tree, of any length and depth: positional or with designators `.m` / `[k]` of any
+length (through anonymous members, overriding earlier initialisers, re-initialising a sub-object
+with a braced list, "continue after the designated member" at every level of the path, 6.7.9p17),
+fully braced or with braces elided at any level (p20), fewer initialisers than members, string
+literals for character arrays (braced or not), struct/union values, empty braces.  The proof is a
+simulation by induction on the reference's recursion (`Lemmas/InitRefSim*.lean`); the hypotheses
+are decidable predicates (`Spec/InitClass.lean`) that `Drv/C07.lean` evaluates for every
+generated object. -/
 
 open CprocVerif.InitRef CprocVerif.InitSim
 
-/-- **`parseinit_refines_ref`** (objects of known size, no designators).  Hypotheses: the type is
-well formed (`tyWf`: arrays have at least one element of non-zero size, structs/unions have a
-member, only scalar members carry bit-field positions), the initialiser has no designator
-(`noDesig`), and at the top level it is a braced list or an expression for the whole object
-(`topOK`).  Then the model's object has the size and, byte for byte, the image that the reference
-reading of 6.7.9 gives. -/
+/-- **`parseinit_refines_ref`** (objects of known size).  Hypotheses: the type is well formed
+(`tyWf`: arrays have at least one element of non-zero size, structs/unions have a member, only
+scalar members carry bit-field positions); at the top level the initialiser is a braced list or
+an expression for the whole object (`topOK`); the reference never switches the active member of a
+union (`r.nswitch = 0` — the designated-union-member switch is known finding
+`union-member-switch`, see `parseinit_refines_ref_counterexample`).  Then the model's object has
+the size and, byte for byte, the image that the reference reading of 6.7.9 gives. -/
 theorem parseinit_refines_ref {t : Ty} {i : Ini} {st : St} {r : InitRef.Result}
     (hm : parseinit t false i = .ok st) (hr : InitRef.ref t false i = .ok r)
-    (hwf : tyWf t = true) (hnd : noDesig i = true) (htop : topOK t i = true) :
+    (hwf : tyWf t = true) (htop : topOK t i = true) (hsw : r.nswitch = 0) :
     st.top = r.size ∧ image st.top (st.log.map evWrite) = image r.size r.writes := by
-  have hok := okI_of i hnd
-  obtain ⟨h1, h2⟩ := refines_core hm hr (nswitch_zero hr hok) hwf hok htop
+  obtain ⟨h1, h2⟩ := refines_core hm hr hsw hwf htop
   exact ⟨h1, by rw [h1]; exact h2.image _⟩
 
-/-- The same with the class as one decidable predicate (what the `class` op of the driver
-evaluates). -/
-theorem parseinit_refines_ref_class {t : Ty} {i : Ini} {st : St} {r : InitRef.Result}
-    (hc : refClass t false i = true) (hm : parseinit t false i = .ok st) (hr : InitRef.ref t false i = .ok r) :
+/-- **`parseinit_refines_ref_unb`** (arrays of unknown size, `T a[] = …`, 6.7.9p22).  The element
+type is well formed and of non-zero size.  The size the model gives the array (`st.top`, what
+`emitdata` is called with) is the size the reference determines from the largest indexed element,
+and the images agree. -/
+theorem parseinit_refines_ref_unb {e0 : Ty} {i : Ini} {st : St} {r : InitRef.Result}
+    (hm : parseinit (.array 0 e0) true i = .ok st) (hr : InitRef.ref (.array 0 e0) true i = .ok r)
+    (hwf : tyWf e0 = true) (hes : 0 < e0.size) (htop : topOK (.array 0 e0) i = true) (hsw : r.nswitch = 0) :
     st.top = r.size ∧ image st.top (st.log.map evWrite) = image r.size r.writes := by
-  simp only [refClass, Bool.not_false, Bool.true_and, Bool.and_eq_true] at hc
-  exact parseinit_refines_ref hm hr hc.1.1 hc.1.2 hc.2
+  obtain ⟨h1, h2⟩ := refines_core_unb hm hr hsw hwf hes htop
+  exact ⟨h1, by rw [h1]; exact h2.image _⟩
+
+/-- Without designators no hypothesis on unions is needed: positional initialisation reaches
+only the first member of a union (stages 1, 2 and 4 of the plan: fully braced or brace-elided
+positional initialisers). -/
+theorem parseinit_refines_ref_nodesig {t : Ty} {i : Ini} {st : St} {r : InitRef.Result}
+    (hm : parseinit t false i = .ok st) (hr : InitRef.ref t false i = .ok r)
+    (hwf : tyWf t = true) (hnd : noDesig i = true) (htop : topOK t i = true) :
+    st.top = r.size ∧ image st.top (st.log.map evWrite) = image r.size r.writes :=
+  parseinit_refines_ref hm hr hwf htop (nswitch_zero hr hnd)
+
+theorem topOK_of_fullyBraced {t : Ty} {i : Ini} (h : fullyBraced t i = true) : topOK t i = true := by
+  cases i with
+  | list its => rfl
+  | expr e =>
+    cases t with
+    | scalar s k => simp [topOK, elides]
+    | array n el =>
+      cases el with
+      | scalar s k =>
+        cases k with
+        | int c sg => cases e <;> simp_all [topOK, elides, fullyBraced]
+        | _ => cases e <;> simp_all [fullyBraced]
+      | _ => cases e <;> simp_all [fullyBraced]
+    | agg u tag size ms => cases e <;> simp_all [topOK, elides, fullyBraced]
+
+/-- Stages 1 and 2 as their own statement: every aggregate has its own braces (`fullyBraced`:
+scalars unbraced or braced, strings for character arrays, struct values, partial lists, `{}`), no
+designators. -/
+theorem parseinit_refines_ref_braced {t : Ty} {i : Ini} {st : St} {r : InitRef.Result}
+    (hm : parseinit t false i = .ok st) (hr : InitRef.ref t false i = .ok r)
+    (hwf : tyWf t = true) (hnd : noDesig i = true) (hfb : fullyBraced t i = true) :
+    st.top = r.size ∧ image st.top (st.log.map evWrite) = image r.size r.writes :=
+  parseinit_refines_ref_nodesig hm hr hwf hnd (topOK_of_fullyBraced hfb)
+
+/-- The same for all objects with the class as ONE decidable predicate (what the `class` op of
+the driver evaluates): `refClass t inc i = tyWfFor t inc && topOK t i && noSwitch t inc i`. -/
+theorem parseinit_refines_ref_class {t : Ty} {inc : Bool} {i : Ini} {st : St} {r : InitRef.Result}
+    (hc : refClass t inc i = true) (hm : parseinit t inc i = .ok st) (hr : InitRef.ref t inc i = .ok r) :
+    st.top = r.size ∧ image st.top (st.log.map evWrite) = image r.size r.writes := by
+  simp only [refClass, noSwitch, hr, Bool.and_eq_true, beq_iff_eq] at hc
+  obtain ⟨⟨hw, ht⟩, hs⟩ := hc
+  cases inc with
+  | false => exact parseinit_refines_ref hm hr (by simpa [tyWfFor] using hw) ht hs
+  | true =>
+    unfold tyWfFor at hw
+    simp only [if_true] at hw
+    split at hw
+    · rename_i e0
+      simp only [Bool.and_eq_true, decide_eq_true_eq] at hw
+      exact parseinit_refines_ref_unb hm hr hw.1 hw.2 ht hs
+    · cases hw
 
 /-- End to end: where the model's log also satisfies the hypotheses of `emitdata_image_ev` (the
 driver reports them for every input: `hyp`), the bytes `emitdata` prints for the list that
 `initadd`/`initclear` built are the image C11 prescribes. -/
 theorem emitdata_refines_ref {t : Ty} {i : Ini} {st : St} {r : InitRef.Result}
     (hm : parseinit t false i = .ok st) (hr : InitRef.ref t false i = .ok r)
-    (hwf : tyWf t = true) (hnd : noDesig i = true) (htop : topOK t i = true)
+    (hwf : tyWf t = true) (htop : topOK t i = true) (hsw : r.nswitch = 0)
     (hok : EvsOK [] st.log) (hw : ∀ x ∈ adds st.log, Wf st.top x) :
     bytes (emitItems st.top (st.log.foldl applyEv [])) = image r.size r.writes := by
   rw [(emitdata_image_ev hok hw).2]
-  exact (parseinit_refines_ref hm hr hwf hnd htop).2
+  exact (parseinit_refines_ref hm hr hwf htop hsw).2
 
-/-! ### non-vacuity: a nested struct/array value with elided braces, a bit-field and a string -/
+/-! ### non-vacuity: nested struct/array values with designators, elided braces, a bit-field, a string -/
 
 def tInt : Ty := .scalar 4 (.int 6 true)
 def tChar : Ty := .scalar 1 (.int 1 true)
@@ -430,24 +489,45 @@ def exI : Ini := .list (.cons [] (numI 1) (.cons [] (numI 3)
   (.cons [] (.list (.cons [] (.list (.cons [] (numI 1) (.cons [] (.list (.cons [] (numI 2) (.cons [] (numI 3) .nil))) .nil)))
     (.cons [] (numI 4) (.cons [] (numI 5) (.cons [] (numI 6) .nil)))))
   (.cons [] (.expr (.str 1 1 [97, 98, 0])) .nil))))
+/-- `{ .p[1].y[0] = 5, 6, "xy", .a = 1, .p[0] = {1, {2}}, .p[0].y[1] = 9, .p[1] = {7} }`:
+multi-level designators, continuation after the designated element (`6` goes to `p[1].y[1]`, the
+string to `s`), overriding, re-initialisation of `p[1]` by a braced list -/
+def exD : Ini := .list
+  (.cons [.fld "p", .idx 1, .fld "y", .idx 0] (numI 5) (.cons [] (numI 6) (.cons [] (.expr (.str 1 1 [120, 121, 0]))
+  (.cons [.fld "a"] (numI 1)
+  (.cons [.fld "p", .idx 0] (.list (.cons [] (numI 1) (.cons [] (.list (.cons [] (numI 2) .nil)) .nil)))
+  (.cons [.fld "p", .idx 0, .fld "y", .idx 1] (numI 9)
+  (.cons [.fld "p", .idx 1] (.list (.cons [] (numI 7) .nil)) .nil)))))))
 
 def isOk {ε α} : Except ε α → Bool
   | .ok _ => true
   | .error _ => false
 
--- the hypotheses of `parseinit_refines_ref` / `parseinit_refines_ref_class`
-example : refClass exT false exI = true := by decide +kernel
+-- the hypotheses of `parseinit_refines_ref_nodesig`
 example : tyWf exT = true ∧ noDesig exI = true ∧ topOK exT exI = true := by decide +kernel
 example : isOk (parseinit exT false exI) = true ∧ isOk (InitRef.ref exT false exI) = true := by decide +kernel
 -- brace elision really occurs in the example: it is not fully braced
 example : fullyBraced exT exI = false := by decide +kernel
+-- the hypotheses of `parseinit_refines_ref` / `parseinit_refines_ref_class` with designators
+example : refClass exT false exD = true ∧ noDesig exD = false := by decide +kernel
+example : isOk (parseinit exT false exD) = true ∧ isOk (InitRef.ref exT false exD) = true := by decide +kernel
 
-/-! ### what the hypothesis `noDesig` still excludes
+/-- `struct P a[] = { {1, {2, 3}}, [3] = {4}, 5, 6, 7 }`: the size comes from the largest index
+(element 4 is reached by continuing after `[3]` with elided braces) -/
+def exUnb : Ini := .list
+  (.cons [] (.list (.cons [] (numI 1) (.cons [] (.list (.cons [] (numI 2) (.cons [] (numI 3) .nil))) .nil)))
+  (.cons [.idx 3] (.list (.cons [] (numI 4) .nil)) (.cons [] (numI 5) (.cons [] (numI 6) (.cons [] (numI 7) .nil)))))
+-- the hypotheses of `parseinit_refines_ref_unb` / `parseinit_refines_ref_class` (inc = true)
+example : refClass (.array 0 exP) true exUnb = true := by decide +kernel
+example : isOk (parseinit (.array 0 exP) true exUnb) = true ∧ isOk (InitRef.ref (.array 0 exP) true exUnb) = true := by
+  decide +kernel
+example : (match InitRef.ref (.array 0 exP) true exUnb with | .ok r => r.size | .error _ => 0) = 60 := by decide +kernel
 
-With designators the statement needs the hypothesis that no second member of a union is
-designated (known finding `union-member-switch`, upstream todo/38): `union { int a; char b[8]; }
-u = {.a = 7, .b[5] = 9};` keeps `a` in the model (= the code), the reference (= gcc, clang) zeroes
-the union when the second member is designated. -/
+/-! ### what the hypothesis `nswitch = 0` excludes
+
+`union { int a; char b[8]; } u = {.a = 7, .b[5] = 9};` keeps `a` in the model (= the code: known
+finding `union-member-switch`, upstream todo/38); the reference (= gcc, clang) zeroes the union when
+the second member is designated.  So the statement without that hypothesis is false. -/
 
 def parseinit_refines_ref_full : Prop :=
   ∀ (t : Ty) (i : Ini) (st : St) (r : InitRef.Result), parseinit t false i = .ok st → InitRef.ref t false i = .ok r →
